@@ -140,6 +140,21 @@ def digest_structure_rules(cx, rep, rid):
                         rep.ob(rid, "%s.hash256/cycle-table-key" % cname, hit is None,
                                "%s.hash256 keys %s by this.%s: cycle detection then follows type names instead of structure (alpha-equivalent recursive types get different digests, same-named types of different registries collide)" % (
                                    cname, s(mc[0]), hit), mod.loc(n), sample={"table": s(mc[0]), "key": s(mc[2][0])})
+            # the digest context carries the writer and the in-progress table only: a counter (or any other field)
+            # that hash256 bumps as it goes records how many references / nodes were ENTERED, which depends on where
+            # aliases are cut - the digest of `{x: Once; y: Rec}` then differs from the same type with Once inlined
+            if mname == "hash256":
+                ctxp0 = (fn_params(fn) or [None])[0]
+                for n in walk(fn):
+                    tgt = None
+                    if n["type"] == "UpdateExpression":
+                        tgt = n["argument"]
+                    elif n["type"] == "AssignmentExpression":
+                        tgt = n["left"]
+                    if tgt is not None and ctxp0 and s(tgt).startswith(ctxp0 + ".") and "[" not in s(tgt):
+                        rep.ob(rid, "%s.hash256/no-traversal-counters" % cname, False,
+                               "%s.hash256 updates %s as it traverses: a value derived from it (e.g. the id of a back-reference) depends on how many references were entered before, i.e. on alias boundaries" % (cname, s(tgt)),
+                               mod.loc(n))
             # key iteration order
             for n in walk(fn):
                 if n["type"] == "ForInStatement":
@@ -383,3 +398,115 @@ def index_signature_field(fam, cname):
             if members.get("key") == "Runtype" and members.get("value") == "Runtype":
                 return fname
     return None
+
+
+_NODES = {}
+
+
+def known_atoms(fn, node):
+    """{atom text: truth value} implied at `node`: known_conditions decomposed by De Morgan (a false `a || b` makes
+    both false, a true `a && b` makes both true, `!a` flips)"""
+    out = {}
+
+    def dec(e, pol):
+        e = unparen(e)
+        if e.get("type") == "UnaryExpression" and e["operator"] == "!":
+            return dec(e["argument"], not pol)
+        if e.get("type") == "BinaryExpression" and e["operator"] == "||" and pol is False:
+            dec(e["left"], False)
+            dec(e["right"], False)
+            return
+        if e.get("type") == "BinaryExpression" and e["operator"] == "&&" and pol is True:
+            dec(e["left"], True)
+            dec(e["right"], True)
+            return
+        out[s(e)] = pol
+    for c, pol in known_conditions(fn, node):
+        e = _NODES.get(c)
+        if e is not None:
+            dec(e, pol)
+        else:
+            out[c] = pol
+    return out
+
+
+def known_conditions(fn, node):
+    """[(canonical test text, polarity)] that hold whenever `node` executes inside fn: tests of the enclosing `if`s
+    (consequent: True, alternate: False), of enclosing conditional expressions, and of EARLIER guard `if`s in an
+    enclosing block whose taken branch always leaves (return / throw / continue / break) - then the negation holds for
+    everything after.  A leading `!` is folded into the polarity; local const aliases are resolved one level."""
+    al = local_aliases(fn)
+
+    def canon(e, pol=True):
+        e = unparen(e)
+        while e.get("type") == "UnaryExpression" and e["operator"] == "!":
+            e = unparen(e["argument"])
+            pol = not pol
+        if e.get("type") == "Identifier" and e["value"] in al:
+            return canon(al[e["value"]], pol)
+        _NODES[s(e)] = e
+        return s(e), pol
+
+    def leaves(st):
+        t = st["type"]
+        if t in ("ReturnStatement", "ThrowStatement", "ContinueStatement", "BreakStatement"):
+            return True
+        if t == "BlockStatement":
+            return any(leaves(x) for x in st["stmts"])
+        if t == "IfStatement":
+            return leaves(st["consequent"]) and st.get("alternate") is not None and leaves(st["alternate"])
+        return False
+    out = []
+
+    def contains(a, b):
+        return any(x is b for x in walk(a))
+
+    def visit(st):
+        t = st.get("type")
+        if t == "BlockStatement" or (t is None and "stmts" in st):
+            prior = []
+            for x in st["stmts"]:
+                if contains(x, node):
+                    out.extend(prior)
+                    visit(x)
+                    return
+                if x["type"] == "IfStatement":
+                    if leaves(x["consequent"]) and (x.get("alternate") is None or not leaves(x["alternate"])):
+                        c, p_ = canon(x["test"])
+                        prior.append((c, not p_))
+                    elif x.get("alternate") is not None and leaves(x["alternate"]) and not leaves(x["consequent"]):
+                        c, p_ = canon(x["test"])
+                        prior.append((c, p_))
+            return
+        if t == "IfStatement":
+            c, p_ = canon(st["test"])
+            if contains(st["consequent"], node):
+                out.append((c, p_))
+                visit(st["consequent"])
+            elif st.get("alternate") is not None and contains(st["alternate"], node):
+                out.append((c, not p_))
+                visit(st["alternate"])
+            return
+        if t == "ConditionalExpression":
+            c, p_ = canon(st["test"])
+            if contains(st["consequent"], node):
+                out.append((c, p_))
+                visit(st["consequent"])
+            elif contains(st["alternate"], node):
+                out.append((c, not p_))
+                visit(st["alternate"])
+            return
+        for k, v in st.items():
+            if k in ("span", "ctxt"):
+                continue
+            if isinstance(v, dict) and contains(v, node):
+                visit(v)
+                return
+            if isinstance(v, list):
+                for x in v:
+                    if isinstance(x, dict) and contains(x, node):
+                        visit(x)
+                        return
+    if fn.get("body") is not None:
+        visit(fn["body"])
+    return out
